@@ -58,13 +58,17 @@ ghost enum Ev {
     Back { at: int, op: Op, target: int },
     // the code of a sub-expression, occupying [at, end): compiled with result request `want`, gave `out`
     Node { at: int, end: int, node: AstIndex, want: ResultRegister, out: CompileNodeOutput },
+    // a call of the function in register `function` (compile_call) with a piped argument, result request `want`
+    Call { at: int, end: int, function: u8, piped: Option<u8>, want: ResultRegister },
+    // a chain expression (compile_chain) with a piped argument, result request `want`
+    Chain { at: int, end: int, chain: (ChainNode, Option<AstIndex>), piped: Option<u8>, want: ResultRegister },
 }
 impl Ev {
     spec fn is_op(self, op: Op, args: Seq<u8>) -> bool { self matches Ev::Op { op: o, args: a, .. } && o == op && a =~= args }
     spec fn is_spanned_op(self, op: Op, args: Seq<u8>, span: Option<AstNode>) -> bool { self matches Ev::Op { op: o, args: a, span: s, .. } && o == op && a =~= args && s == span }
     spec fn is_var(self, n: u32) -> bool { self matches Ev::VarU32 { n: m, .. } && m == n }
     spec fn is_node(self, node: AstIndex, want: ResultRegister) -> bool { self matches Ev::Node { node: n, want: w, .. } && n == node && w == want }
-    spec fn pos(self) -> int { match self { Ev::Op { at, .. } => at, Ev::VarU32 { at, .. } => at, Ev::Hole { at } => at, Ev::Back { at, .. } => at, Ev::Node { at, .. } => at } }
+    spec fn pos(self) -> int { match self { Ev::Op { at, .. } => at, Ev::VarU32 { at, .. } => at, Ev::Hole { at } => at, Ev::Back { at, .. } => at, Ev::Node { at, .. } => at, Ev::Call { at, .. } => at, Ev::Chain { at, .. } => at } }
     // the register that holds a sub-expression's value
     spec fn reg(self) -> u8 { match self { Ev::Node { out, .. } => match out.register { Some(r) => r, None => 0 }, _ => 0 } }
     spec fn temporary(self) -> bool { self matches Ev::Node { out, .. } && out.is_temporary }
@@ -254,8 +258,8 @@ HELPERS = r"""
     spec fn node_post(pre: &Compiler, post: &Compiler, node: AstIndex, ctx: CompileNodeContext, out: CompileNodeOutput, at: int, before: Seq<Ev>) -> bool {
         &&& post.len() >= at
         &&& post.g@.trace == before.push(Ev::Node { at, end: post.len(), node, want: ctx.result_register, out })
-        &&& (ctx.result_register matches ResultRegister::Fixed(x) ==> out.register == Some(x) && !out.is_temporary)
-        &&& (ctx.result_register is Any ==> out.register is Some)
+        // (a node that never yields a value - break, continue - reports no register whatever was asked for)
+        &&& (ctx.result_register matches ResultRegister::Fixed(x) ==> (out.register is Some ==> out.register == Some(x) && !out.is_temporary))
         &&& (out.is_temporary ==> out.register is Some && ctx.result_register is Any)
         &&& post.g@.regs == pre.g@.regs + (if out.is_temporary { 1int } else { 0 })
         &&& Self::frame_post(pre, post, pre.len())
@@ -375,8 +379,31 @@ HELPERS = r"""
     // not under contract here (compile_chain, 375 lines, is behind both)
     #[verifier::external_body]
     fn compile_compound_assignment_op(&mut self, ast_op: AstBinaryOp, lhs: AstIndex, rhs: AstIndex, ctx: CompileNodeContext) -> (r: Result<CompileNodeOutput>) { unimplemented!() }
+    // ASSUMED contracts of compile_call (94 lines) and compile_chain (375 lines), as for compile_node: the code is
+    // appended, the result request is honoured, nothing but the reported temporary stays on the register stack
+    spec fn sub_post(pre: &Compiler, post: &Compiler, want: ResultRegister, out: CompileNodeOutput) -> bool {
+        &&& post.len() >= pre.len() && post.g@.trace.len() == pre.g@.trace.len() + 1 && prefix(pre.g@.trace, post.g@.trace)
+        &&& (want matches ResultRegister::Fixed(x) ==> (out.register is Some ==> out.register == Some(x) && !out.is_temporary))
+        &&& (out.is_temporary ==> out.register is Some && want is Any)
+        &&& post.g@.regs == pre.g@.regs + (if out.is_temporary { 1int } else { 0 })
+        &&& Self::frame_post(pre, post, pre.len())
+    }
     #[verifier::external_body]
-    fn compile_piped_call(&mut self, lhs: AstIndex, rhs: AstIndex, ctx: CompileNodeContext) -> (r: Result<CompileNodeOutput>) { unimplemented!() }
+    fn compile_call(&mut self, function_register: u8, args: &[AstIndex], piped_arg: Option<u8>, instance: Option<u8>, ctx: CompileNodeContext) -> (r: Result<CompileNodeOutput>)
+        requires old(self).g@.spans.len() > 0,
+        ensures r matches Ok(out) ==> Self::sub_post(old(self), final(self), ctx.result_register, out)
+            && final(self).g@.trace.last() == (Ev::Call { at: old(self).len(), end: final(self).len(), function: function_register, piped: piped_arg, want: ctx.result_register }),
+    { unimplemented!() }
+    #[verifier::external_body]
+    fn compile_chain(&mut self, chain: &(ChainNode, Option<AstIndex>), piped_arg_register: Option<u8>, rhs: Option<u8>, rhs_op: Option<Op>, ctx: CompileNodeContext) -> (r: Result<CompileNodeOutput>)
+        requires old(self).g@.spans.len() > 0,
+        ensures r matches Ok(out) ==> Self::sub_post(old(self), final(self), ctx.result_register, out)
+            && final(self).g@.trace.last() == (Ev::Chain { at: old(self).len(), end: final(self).len(), chain: *chain, piped: piped_arg_register, want: ctx.result_register }),
+    { unimplemented!() }
+    // `self.frame().get_local_assigned_register(id)` (rule R5): the register of a local that has been assigned, if `id` is one
+    #[verifier::external_body]
+    fn frame_local_assigned_register(&self, id: ConstantIndex) -> (r: Option<u8>) ensures r == self.local_register_of(id) { unimplemented!() }
+    uninterp spec fn local_register_of(&self, id: ConstantIndex) -> Option<u8>;
     // `self.error(ErrorKind::..)` (rule R5: the error value is not part of any property here)
     #[verifier::external_body]
     fn error_any<T>(&self) -> (r: Result<T>) ensures r is Err { unimplemented!() }
@@ -942,6 +969,51 @@ let ghost mut rs: Seq<AstIndex> = seq![rhs0]; let ghost mut operands: Seq<AstInd
             let t = final(self).g@.trace; let n = old(self).g@.trace.len() as int;
             t.len() == n + (if out.register is Some { 2int } else { 1 }) && t[n].is_node(value, ResultRegister::Any)
                 && (out.register matches Some(x) ==> t[n + 1].is_op(if op is Negate { Op::Negate } else { Op::Not }, seq![x, t[n].reg()])) }),   // @operand_then_the_operator
+        r matches Ok(out) ==> final(self).g@.regs == old(self).g@.regs + (if out.is_temporary { 1int } else { 0 }),                       // @temporaries_released
+        r is Ok ==> Self::frame_post(old(self), final(self), old(self).len()),                                                           // @earlier_code_and_enclosing_loops_untouched
+        r matches Ok(out) ==> (ctx.result_register matches ResultRegister::Fixed(x) ==> out.register == Some(x) && !out.is_temporary),
+        r matches Ok(out) ==> (ctx.result_register is Any ==> out.register is Some && out.is_temporary),
+        r matches Ok(out) ==> (ctx.result_register is None ==> out.register is None),                                                     // @result_request_is_honoured
+"""),
+        # ---- C01: piped calls `x -> f`
+        Fn(F, "impl Compiler :: fn compile_load_non_local", props=P01,
+           spec=r"""
+    requires old(self).g@.spans.len() > 0,
+    ensures final(self).g@.trace.len() == old(self).g@.trace.len() + 2 && prefix(old(self).g@.trace, final(self).g@.trace)
+        && final(self).g@.trace[old(self).g@.trace.len() as int].is_op(Op::LoadNonLocal, seq![result_register]) && final(self).g@.trace.last().is_var(id.0)
+        && final(self).same_frame_state(old(self)) && final(self).g@.patched == old(self).g@.patched && final(self).len() >= old(self).len(),
+"""),
+        Fn(F, "impl Compiler :: fn compile_constant_op", props=P01, subst=[("id.into()", "constant_index_u32(id)", 1)],
+           spec=r"""
+    requires old(self).g@.spans.len() > 0,
+    ensures final(self).g@.trace.len() == old(self).g@.trace.len() + 2 && prefix(old(self).g@.trace, final(self).g@.trace)
+        && final(self).g@.trace[old(self).g@.trace.len() as int].is_op(op, seq![result_register]) && final(self).g@.trace.last().is_var(id.0)
+        && final(self).same_frame_state(old(self)) && final(self).g@.patched == old(self).g@.patched && final(self).len() >= old(self).len(),
+"""),
+        Fn(F, "impl Compiler :: fn compile_piped_call", props=P01,
+           subst=[(r"self\.frame\(\)\.get_local_assigned_register\(", "self.frame_local_assigned_register(", None, "re")],
+           before=[TAIL],
+           spec=r"""
+    requires old(self).g@.spans.len() > 0,
+    ensures
+        r is Ok ==> prefix(old(self).g@.trace, final(self).g@.trace) && final(self).g@.trace.len() >= old(self).g@.trace.len() + 2,
+        // C01: the piped value is evaluated first, into a register of its own; the call gets it as its piped argument and
+        // puts its result where THIS expression's result goes (never anywhere else)
+        r matches Ok(out) ==> ({
+            let t = final(self).g@.trace; let n = old(self).g@.trace.len() as int; let want = fixed_or_none_spec(out.register);
+            &&& t[n].is_node(lhs, ResultRegister::Any)
+            &&& (match ctx.ast.at(rhs).node {
+                    // a local function that has been assigned is called where it is, any other name is loaded into a
+                    // register of its own first
+                    Node::Id(id, _) => (t.len() == n + 2 && (t[n + 1] matches Ev::Call { piped, want: w, .. } && piped == Some(t[n].reg()) && w == want))
+                        || (t.len() == n + 4 && (t[n + 1] matches Ev::Op { op, args, .. } && op == Op::LoadNonLocal && args.len() == 1
+                            && t[n + 2].is_var(id.0) && (t[n + 3] matches Ev::Call { function, piped, want: w, .. } && function == args[0] && piped == Some(t[n].reg()) && w == want))),
+                    // a chain: the piped value becomes the last argument of the call that ends it
+                    Node::Chain(c) => t.len() == n + 2 && (t[n + 1] matches Ev::Chain { chain, piped, want: w, .. } && chain == c && piped == Some(t[n].reg()) && w == want),
+                    // anything else is evaluated and called
+                    _ => t.len() == n + 3 && t[n + 1].is_node(rhs, ResultRegister::Any)
+                        && (t[n + 2] matches Ev::Call { function, piped, want: w, .. } && function == t[n + 1].reg() && piped == Some(t[n].reg()) && w == want),
+                }) }),                                                                                                                    // @piped_value_first_then_the_call_into_the_result_register
         r matches Ok(out) ==> final(self).g@.regs == old(self).g@.regs + (if out.is_temporary { 1int } else { 0 }),                       // @temporaries_released
         r is Ok ==> Self::frame_post(old(self), final(self), old(self).len()),                                                           // @earlier_code_and_enclosing_loops_untouched
         r matches Ok(out) ==> (ctx.result_register matches ResultRegister::Fixed(x) ==> out.register == Some(x) && !out.is_temporary),
